@@ -56,6 +56,8 @@ def op_strategies(set_funcs=SET_FUNCS, list_funcs=LIST_FUNCS, symbols=False, loa
         fields = {"i": st.integers(0, 3), "f": st.just(f), "ms": cs, "a": small, "as": how}
         if f in ("delslice", "setslice"):
             fields.update(a=sl, b=sl, s=st.one_of(st.none(), st.none(), st.sampled_from([1, 2, -1, -2, 3])))
+        if f == "setslice":
+            fields["perm"] = st.one_of(st.none(), st.integers(0, 8))
         if f == "pop":
             fields["arg"] = st.booleans()
         ops["list." + f] = progs.op("list", **fields)
@@ -95,6 +97,8 @@ FOCUS = [["list.", "listq.", "new"], ["set.", "setq.", "setparent"], ["setparent
          ["rename", "payload", "newsym", "symparent", "refparent"]]
 
 
-def cases(max_len=40, **kw):
+def cases(max_len=40, only=None, **kw):
     ops = op_strategies(**kw)
+    if only:
+        ops = {n: v for n, v in ops.items() if n.startswith(tuple(only))}
     return st.fixed_dictionaries({"layout": layout(), "ops": progs.programs(ops, max_len=max_len, focus=FOCUS)})
